@@ -12,7 +12,7 @@ Q, T = "quick", "thorough"
 # and the recursion of the code under test.  Unwinding assertions stay on.
 DEFAULT_UNWINDSET = {"poseidon_hash_many": 8, "from_bytes_be_slice": 34, "to_bytes_be": 10, "word_from_be32": 10,
                      "word_at": 10, "word_bytes": 10, "verif_uf::hash2": 40, "verif_uf::arith2": 40, "hi_zero_from": 10,
-                     "felt_core::reduce": 7, "felt_core::shr": 6, "felt_core::shl": 6, "felt_core::low_bits": 6, "felt_core::mul_small": 18,
+                     "felt_core::reduce": 7, "felt_core::from_hex": 68, "felt_core::shr": 6, "felt_core::shl": 6, "felt_core::low_bits": 6, "felt_core::mul_small": 18,
                      "num_bigint": 10, "Hasher": 10}
 
 def e1(id, harness, bounds, desc, tier=Q, features=DF, timeout=900, witness=True, unwindset=None, mem=8):
@@ -67,7 +67,7 @@ PROPS["C11"] = dict(
 )
 
 def e2(prop=None, timeout=3600, args=None):
-    return dict(engine="e2", id="e2", prop=prop, timeout=timeout, args=args, tier=Q)
+    return dict(engine="e2", id="e2:" + str(prop), prop=prop, timeout=timeout, args=args, tier=Q)
 
 E2_ASSUMPTIONS = [
     "E2 trusted base: the Python front end under /verif/smt (parser + symbolic executor of a Rust subset; leaving the subset is reported inconclusive), validated per run by pushing seeded concrete field points through both the encoding and the real function (replay_e2)",
@@ -78,7 +78,9 @@ PROPS["C15"] = dict(
     title="Closed-form AIR boundary values equal their defining products",
     level="model_checking",
     technique="source-to-SMT translation of the real functions (parsed from /repo each run), z3 over reals/bit-vectors, native replay",
-    obligations=[e2("C15")],
+    obligations=[e2("C15"),
+                 e1("C15.memory_product.kani.m1_h1", "c15_memprod_1_1", "1 main-page cell, 1 continuous page header, z, alpha: any felts (products uninterpreted)", "get_public_memory_product == product over every cell and every page product, length = cells + page sizes (compiled real code)", timeout=1200, mem=10),
+                 e1("C15.memory_product.kani.m2_h2", "c15_memprod_2_2", "2 cells, 2 headers", "as above", tier=T, timeout=5400, mem=10)],
     assumptions=E2_ASSUMPTIONS,
     outside=["n_bits > 16 / spacing > 4 for the ruler structure (the inductive step covers any n_bits)", "pages longer than the stated bound"],
 )
@@ -234,7 +236,10 @@ PROPS["C07"] = dict(
     title="FRI rejects inconsistent layers and functions above the degree bound",
     level="model_checking",
     technique="symbolic execution of the real fri_verify / fri_verify_layers / compute_next_layer / table_decommit (z3, uninterpreted collision-free hashes) on small enumerated shapes + z3 polynomial identity for the last-layer perturbation; native replay",
-    obligations=[e2("C07"), e2("C07S")],
+    obligations=[e2("C07"), e2("C07S")] + [
+        e1("C07.last_layer_length.kani.len%d" % l, "c07_last_len_%d" % l, "fri_verify on the one-layer instance (no inner layers), one query, %d last-layer coefficients (any felts), log bound any in 0..=3" % l,
+           "Ok => the number of coefficients is exactly 2^bound (compiled real code: no parser subset)", tier=(Q if l in (2, 3) else T), timeout=900, witness=(l in (1, 2, 4)), mem=10)
+        for l in range(0, 6)],
     assumptions=E2S_ASSUMPTIONS,
     outside=["'a function of degree >= bound is rejected except with small probability': a probabilistic statement over the query randomness - no solver here can quantify over provers",
              "queried input values / evaluation points: they are recomputed or absorbed; that a changed challenge makes a later check fail is probabilistic",
